@@ -130,7 +130,7 @@ NEEDS.update({
  'C20-r2m2': 'ja format with a token containing < or > (denormalize instead of normalize)',
  'C20-r2m3': 'a printed tree freed and a new tree allocated at the same addresses (ptb cache by id)',
 })
-HISTORY.update({
+HISTORY2 = ({
  'C01-r2m2': 'missed at first by C01 (caught by C16): extreme rows added to C01',
  'C02-r2m1': 'missed at first: rows deep in the negative range (threshold underflow) added',
  'C02-r2m2': 'missed at first: grammars with 70-140 categories added',
@@ -159,6 +159,8 @@ HISTORY = {
  'C18-m3': 'missed at first (reference rendering shared the stale process state); up-front references + interference rendering added',
  'C20-m3': 'caught only after the ptb token domain was widened to tokens containing brackets in the middle',
 }
+
+HISTORY.update(HISTORY2)
 
 
 def main(only=None):
